@@ -310,6 +310,57 @@ def run(chk, repo, tier):
                            what='%s writes self.%s: state that outlives the '
                                 'call and is read by later calls (a hidden '
                                 'channel between API calls)' % (q, n.attr))
+    # ---- R15.6 constructors keep their own containers --------------------
+    # an attribute the class changes in place (+=, append, update, item
+    # store) must not be the very object the caller passed in: two objects
+    # built from the same arguments would share -- and grow -- one container
+    from ..match import MUTATING_METHODS
+    nown = 0
+    for rel, cname in STATE_CLASSES:
+        c = repo.cls(rel, cname)
+        init = [f for f in c.body if isinstance(f, ast.FunctionDef)
+                and f.name == '__init__']
+        if not init:
+            continue
+        init = init[0]
+        ps_ = set(params(init)[1:])
+        mutated = set()
+        for n in ast.walk(c):
+            t = None
+            if isinstance(n, ast.AugAssign):
+                t = n.target
+            elif isinstance(n, ast.Call) and isinstance(
+                    n.func, ast.Attribute) and n.func.attr in \
+                    MUTATING_METHODS:
+                t = n.func.value
+            elif isinstance(n, ast.Subscript) and isinstance(
+                    n.ctx, (ast.Store, ast.Del)):
+                t = n.value
+            if isinstance(t, ast.Attribute) and dotted(t.value) == 'self':
+                mutated.add(t.attr)
+        for n in ast.walk(init):
+            if not (isinstance(n, ast.Assign) and len(n.targets) == 1
+                    and isinstance(n.targets[0], ast.Attribute)
+                    and dotted(n.targets[0].value) == 'self'
+                    and n.targets[0].attr in mutated):
+                continue
+            nown += 1
+            cands = [n.value]
+            if isinstance(n.value, ast.BoolOp):
+                cands = list(n.value.values)
+            elif isinstance(n.value, ast.IfExp):
+                cands = [n.value.body, n.value.orelse]
+            shared = [src(x) for x in cands
+                      if isinstance(x, ast.Name) and x.id in ps_]
+            chk.ob('R15.6', not shared, rel, n,
+                   key='own-container:%s.%s' % (cname, n.targets[0].attr),
+                   qualname='%s.__init__' % cname,
+                   what='%s.%s is changed in place by the class, so the '
+                        'constructor stores a container of its own, not the '
+                        'caller\'s object' % (cname, n.targets[0].attr),
+                   found='stores ' + ', '.join(shared))
+    chk.need('R15.6', nown, 4, 'constructor-stored containers that the class '
+                               'changes in place')
     # the estimator keeps values, not the library
     init = repo.func(GD, 'ThermochemGroupAdditive.__init__')
     libp = params(init)[1]
